@@ -98,7 +98,8 @@ class Chain:
         if "issuer_rdns" in tw:
             iss = X.name(tw["issuer_rdns"][-1][1], extra=tw["issuer_rdns"][:-1], last=tw["issuer_rdns"][-1][0])
         serial = int.from_bytes(hashlib.sha256((self.tag + who).encode()).digest()[:12], "big") | (1 << 95)
-        t = X.tbs(serial, iss, nb, na, subj, pub, exts, version=tw.get("version", 2), alg=tw.get("alg_inner"))
+        t = X.tbs(serial, iss, nb, na, subj, pub, exts, version=tw.get("version", 2), alg=tw.get("alg_inner"),
+                  spki_der=X.spki_shaped(pub, tw["spki_shape"]) if "spki_shape" in tw else None)
         return X.cert(t, d_i, pub_i, bad_sig=tw.get("bad_sig"), alg=tw.get("alg_outer"))
 
     def chain_der(self, include_root=False):
